@@ -74,7 +74,8 @@ fn small(ctx: &mut Ctx) {
             let pos = m.ones.clone();
             check_sparse(ctx, "set", mk::sparse_set(n, &pos), &m, &args, &opts);
             // Other routes: rotate to keep the cost linear.
-            match index % 5 {
+            match index % 6 {
+                5 => { check_sparse(ctx, "set_unchecked", mk::sparse_set_unchecked(n, &pos, false, (index % 4) as usize), &m, &args, &opts); },
                 0 => { check_sparse(ctx, "try_set", mk::sparse_try_set(n, &pos), &m, &args, &opts); },
                 1 => { check_sparse(ctx, "extend", mk::sparse_extend(n, &pos), &m, &args, &opts); },
                 2 => { check_sparse(ctx, "copy.bitvector", guard(|| SparseVector::copy_bit_vec(&mk::bv_set_bit(&bits))), &m, &args, &opts); },
